@@ -396,7 +396,18 @@ func roundTripInMemory(clear []byte, c *cryptgen.Case) ([]byte, *harness.Fail) {
 	return out.Bytes(), nil
 }
 
+// checkRoundTrip: a refusal to encrypt is a correct outcome when a sample needs more sub-sample entries than
+// the 8-bit sample_info_size of saiz can describe (cryptgen.Case.SaizLimit); whatever IS written is judged.
 func checkRoundTrip(rc rtCase) *harness.Fail {
+	f := checkRoundTrip1(rc)
+	if f != nil && rc.Case.SaizLimit() && strings.Contains(f.Key, "EncryptFragment") && strings.HasSuffix(f.Key, "|error on valid input") {
+		harness.Rec.Class("refused: sub-sample table beyond the saiz size limit")
+		return nil
+	}
+	return f
+}
+
+func checkRoundTrip1(rc rtCase) *harness.Fail {
 	c := rc.Case
 	b, err := c.Build()
 	if err != nil {
